@@ -56,6 +56,8 @@ pub enum Q {
     Choices(String),
     /// `associations(parent, association)`
     Assoc(String, String),
+    /// `has_relationship` with a resolver over records (the records, relationship, term, target, index of the subject)
+    RelX(Vec<c13::RelRec>, String, Option<String>, Option<String>, usize),
 }
 
 impl Q {
@@ -84,6 +86,33 @@ impl Q {
                     });
                 }
             }
+            Q::RelX(recs, rel, term, target, subj) => {
+                // the model's records: every tag in key order, `id` included; a Ref value by its id
+                let dicts: Vec<Dict> = recs.iter().map(|r| r.dict()).collect();
+                let rec_tokens = |r: &c13::RelRec, d: &Dict, out: &mut Vec<String>| {
+                    out.push(vx::ho(&r.key));
+                    out.push(match d.get_ref("id") {
+                        Some(r) => vx::h(&r.value),
+                        None => "-".into(),
+                    });
+                    out.push(d.len().to_string());
+                    for (k, v) in d.iter() {
+                        out.push(vx::h(k));
+                        out.push(match v {
+                            Value::Ref(r) => vx::h(&r.value),
+                            _ => "-".into(),
+                        });
+                    }
+                };
+                out.push("rel".into());
+                out.push(recs.len().to_string());
+                for (r, d) in recs.iter().zip(&dicts) {
+                    rec_tokens(r, d, out);
+                }
+                out.extend([vx::h(rel), vx::ho(term), vx::ho(target)]);
+                let i = (*subj).min(recs.len().saturating_sub(1));
+                rec_tokens(&recs[i], &dicts[i], out);
+            }
             _ => self.write(out),
         }
     }
@@ -95,7 +124,7 @@ impl Q {
     }
     /// the ORDER of cache operations does not depend on hash-set iteration order
     fn deterministic_order(&self) -> bool {
-        matches!(self, Q::Sup(_) | Q::ASup(_) | Q::Inh(_) | Q::Fits(..) | Q::Tags(_) | Q::Assoc(..) | Q::FitsRoot(..) | Q::Impl(_) | Q::Rel(..))
+        matches!(self, Q::Sup(_) | Q::ASup(_) | Q::Inh(_) | Q::Fits(..) | Q::Tags(_) | Q::Assoc(..) | Q::FitsRoot(..) | Q::Impl(_) | Q::Rel(..) | Q::RelX(..))
     }
     fn write(&self, out: &mut Vec<String>) {
         let rec = |r: &RecSpec, out: &mut Vec<String>| {
@@ -130,6 +159,11 @@ impl Q {
             Q::Impl(k) => out.extend(["impl".into(), vx::h(k)]),
             Q::Choices(k) => out.extend(["choices".into(), vx::h(k)]),
             Q::Assoc(p, a) => out.extend(["assoc".into(), vx::h(p), vx::h(a)]),
+            Q::RelX(recs, rel, term, target, subj) => {
+                out.push("relx".into());
+                let q = c13::RelQuery { subject: *subj, rel: rel.clone(), term: term.clone(), target: target.clone() };
+                c13::write_rel(recs, &[q], out);
+            }
         }
     }
     fn read(rd: &mut vx::Rd) -> Option<Q> {
@@ -166,6 +200,11 @@ impl Q {
             "impl" => Q::Impl(rd.hs()?),
             "choices" => Q::Choices(rd.hs()?),
             "assoc" => Q::Assoc(rd.hs()?, rd.hs()?),
+            "relx" => {
+                let (recs, qs) = c13::read_rel(rd)?;
+                let q = qs.into_iter().next()?;
+                Q::RelX(recs, q.rel, q.term, q.target, q.subject)
+            }
             _ => return None,
         })
     }
@@ -245,6 +284,14 @@ fn ask(ns: Ns, q: &Q) -> (String, String) {
         Q::Impl(k) => (n(c13::names(ns.implementation(&Symbol::from(k.as_str())))), String::new()),
         Q::Choices(k) => (n(c13::names(ns.choices_for(&Symbol::from(k.as_str())).iter())), String::new()),
         Q::Assoc(p, a) => (n(c13::names(ns.associations(&Symbol::from(p.as_str()), &Symbol::from(a.as_str())))), String::new()),
+        Q::RelX(recs, rel, term, target, subj) => {
+            let dicts: Vec<Dict> = recs.iter().map(|r| r.dict()).collect();
+            let resolve = |r: &Ref| -> Option<Dict> { recs.iter().position(|x| x.key.as_deref() == Some(r.value.as_str())).map(|i| dicts[i].clone()) };
+            let i = (*subj).min(recs.len().saturating_sub(1));
+            let t = term.as_ref().map(|t| Symbol::from(t.as_str()));
+            let g = target.as_ref().map(|g| Ref::from(g.as_str()));
+            (b(ns.has_relationship(&dicts[i], &Symbol::from(rel.as_str()), &t, &g, &resolve)), String::new())
+        }
     }
 }
 
@@ -1029,6 +1076,10 @@ fn gen_queries(rng: &mut Rng, o: &Oracle, universe: &[String], n: u64, kinds: &[
             rng.pick(universe).clone()
         }
     };
+    let relx_pool = {
+        let rows: Vec<RowSpec> = o.is.iter().map(|(k, v)| RowSpec::plain(k, v.iter().cloned().map(Some).collect())).collect();
+        c13::gen_rel(rng, &rows, universe.iter().any(|u| u == "hotWaterRef"))
+    };
     let mut qs = Vec::new();
     for _ in 0..n {
         let q = match *rng.pick(kinds) {
@@ -1063,6 +1114,13 @@ fn gen_queries(rng: &mut Rng, o: &Oracle, universe: &[String], n: u64, kinds: &[
                 let p = if rng.chance(1, 2) { rng.pick(&["site", "air", "ahu", "equip", "marker"]).to_string() } else { name(rng) };
                 Q::Assoc(p, a)
             }
+            12 => {
+                // a family member: one of a few (relationship, term, target) triples over ONE record set per call of
+                // this generator, asked of a random record - the walks run through the same refs
+                let (recs, qs) = &relx_pool;
+                let q = rng.pick(qs).clone();
+                Q::RelX(recs.clone(), q.rel, q.term, q.target, rng.below(recs.len() as u64) as usize)
+            }
             _ => Q::Choices(name(rng)),
         };
         qs.push(q);
@@ -1072,7 +1130,7 @@ fn gen_queries(rng: &mut Rng, o: &Oracle, universe: &[String], n: u64, kinds: &[
 
 const MODELLED_DET: &[u64] = &[0, 1, 1, 2, 2, 2, 3, 3, 4];
 const MODELLED: &[u64] = &[0, 1, 2, 2, 3, 3, 4, 5, 5];
-const ALL_KINDS: &[u64] = &[0, 1, 2, 2, 3, 3, 4, 5, 6, 6, 7, 8, 8, 9, 10, 11, 11, 11];
+const ALL_KINDS: &[u64] = &[0, 1, 2, 2, 3, 3, 4, 5, 6, 6, 7, 8, 8, 9, 10, 11, 11, 11, 12, 12, 12];
 const ORDERED: &[u64] = &[0, 1, 2, 2, 3];
 const ORDERED_X: &[u64] = &[0, 1, 2, 3, 6, 7, 7, 8, 9];
 
